@@ -94,14 +94,16 @@ Definition run_coarse (k:ccase) : st := fst (fold_left do_action (cc_sched k) (i
 Definition model (k:ccase) : tape :=
   let s := run_coarse k in
   eList (fun th => eList (fun r => [N.of_nat (fst r); e_outcome (snd r)]) (rev (res th))) (thrs s)
-  ++ eList (fun e => [N.of_nat (etid e); N.of_nat (efid e); N.of_nat (epart e)]) (log s).
+  ++ eList (fun e => [N.of_nat (etid e); N.of_nat (efid e); N.of_nat (epart e)]) (log s)
+  ++ [0].   (* transport operations started after a transport failure: none (Props/C10, ConcP.fail_stop) *)
 
 (* ---- Spec on the implementation's observation ---- *)
-Record cobs := { co_res : list (list (N * N)); co_log : list (N * N * N) }.
+Record cobs := { co_res : list (list (N * N)); co_log : list (N * N * N); co_after : N }.
 Definition p_cobs : P cobs :=
   rs <- pList (pList (pPair pN pN)) ;;
   lg <- pList (a <- pN ;; b <- pN ;; c <- pN ;; ret (a, b, c)) ;;
-  ret {| co_res := rs; co_log := lg |}.
+  af <- pN ;;
+  ret {| co_res := rs; co_log := lg; co_after := af |}.
 
 Definition call_of (k:ccase) (t f:N) : option call :=
   match nth_error (cc_threads k) (N.to_nat t) with
@@ -155,6 +157,7 @@ Definition spec (k:ccase) (obs:tape) : option (N * tape) :=
       else if negb (after_close k (co_log o)) then Some (151, [])       (* bytes written after a close frame *)
       else if negb (timeouts_clean o) then Some (152, [])               (* a timed-out WriteControl wrote something *)
       else if negb (close_sent_justified k o) then Some (153, [])       (* ErrCloseSent although no close frame was written *)
+      else if negb (co_after o =? 0) then Some (154, [co_after o])      (* the transport was used again after it had failed *)
       else None
   end.
 
